@@ -56,7 +56,7 @@ def run_case(case):
   from ml_metrics._src.chainables import courier_server, lazy_fns as lf  # pylint: disable=g-import-not-at-top
   a, b = case['gen_a'], case.get('gen_b')
   bs, pf = case['batch_size'], case['prefetch_size']
-  what = f'prefetch_size={pf} batch_size={bs} A={a} B={b} reinit_after={case.get("reinit_after")} interrupt={case.get("interrupt")}' + (f' bad_init={case["bad_init"]}' if case.get('bad_init') else '')
+  what = f'prefetch_size={pf} batch_size={bs} A={a} B={b} reinit_after={case.get("reinit_after")} interrupt={case.get("interrupt")}' + (f' bad_init={case["bad_init"]}' if case.get('bad_init') else '') + (f' watchdog={case["watchdog"]}' if case.get('watchdog') else '')
   log = []       # ('batch', gen tag of the current generator, payload) / ('reinit',)
   info = {}
 
@@ -66,7 +66,15 @@ def run_case(case):
     return lf.pickler.dumps(lf.trace(targets.gen_range)(g['n'], g['fail_at'], g['ret'], tag))
 
   def client():
-    s = courier_server.PrefetchedCourierServer(f'pf{next(_counter)}', prefetch_size=pf)
+    wd = case.get('watchdog')     # [auto-shutdown period, pause between two requests]: the server's own serving loop runs
+    if wd:
+      s = courier_server.PrefetchedCourierServer(f'pf{next(_counter)}', prefetch_size=pf, timeout_secs=wd[0])
+      dsched.time_shim.sleep(1.0)
+      info['serving'] = dsched.Thread(target=s.run_until_shutdown, name='serving')
+      info['serving'].start()
+      dsched.time_shim.sleep(1.0)
+    else:
+      s = courier_server.PrefetchedCourierServer(f'pf{next(_counter)}', prefetch_size=pf)
     info['server'] = s
 
     def failed_init(when):
@@ -95,6 +103,8 @@ def run_case(case):
           break
         cur = 'B'
         log.append(('reinit',))
+      if wd:
+        dsched.time_shim.sleep(wd[1])     # a client that is slow but never idle for as long as the auto-shutdown period
       batch = lf.pickler.loads(s._next_batch(bs))  # pylint: disable=protected-access
       log.append(('batch', cur, batch))
       if batch and isinstance(batch[-1], Exception):
@@ -105,6 +115,9 @@ def run_case(case):
       failed_init('after the generator was served to its end')
     info['client_done_at'] = dsched.S().now
     s._stop_prefetch()  # pylint: disable=protected-access
+    if wd:
+      s._request_shutdown()  # pylint: disable=protected-access
+      info['serving'].join()
 
   def interrupter():
     kind, after = case['interrupt']
@@ -436,7 +449,13 @@ def strat(tier):
     case = {'gen_a': draw(gen), 'batch_size': draw(st.integers(0, 4)), 'prefetch_size': draw(st.integers(1, 3)),
             'schedule': draw(schedule_strategy())}
     mode = draw(st.sampled_from(['plain', 'plain', 'reinit', 'interrupt']))
-    if mode != 'interrupt' and draw(st.integers(0, 4)) == 0:
+    if mode == 'plain' and draw(st.integers(0, 5)) == 0:
+      # the serving loop with a short auto-shutdown period; requests come at shorter intervals than the period, the whole
+      # iteration takes longer than it
+      case['watchdog'] = draw(st.sampled_from([[150.0, 50.0], [100.0, 61.0], [70.0, 40.0]]))
+      case['gen_a'] = dict(case['gen_a'], n=draw(st.integers(4, 6)))
+      case['batch_size'] = draw(st.sampled_from([0, 1, 1]))
+    elif mode != 'interrupt' and draw(st.integers(0, 4)) == 0:
       case['bad_init'] = [draw(st.sampled_from(['first', 'after'])), draw(st.sampled_from(['raises', 'not_iterable']))]
     if mode == 'reinit':
       case['gen_b'] = draw(gen)
